@@ -42,7 +42,7 @@ func c09(c *core.Ctx) map[string]interface{} {
 	r9acc(c)
 	// decoding what an independent encoder built needs the codec's own structure to be right
 	// (dispatch and Encode/Decode pairing rules of C08); the emulator's S-NSSAI IE (C17)
-	r8dispatch(c, m)
+	r8dispatchX(c, m)
 	r8pairs(c, m)
 	r17snssaiCtor(c)
 	return map[string]interface{}{"messages_modelled": len(m.Msgs)}
